@@ -20,7 +20,7 @@ RULE = ("random DAGs (<= 7 providers, depth <= 4, fan-out <= 3, shared sub-depen
         "fingerprint = canonical DAG + overrides + failure + converter; trivial = graphs without any edge")
 ASSUMPTIONS = ["in-memory broker; virtual time; sync providers run through an inline executor (the asyncify wrapper is kept)"]
 EVAL_COUNTER = "invocations_judged"
-REQUIRED = ["invocations_judged", "graphs_with_shared_subdeps", "overrides_applied", "provider_failures", "declaration_rejections", "msg_leaves", "concurrent_twins", "fresh_executions", "same_function_depends_runs", "shadowing_payload_jobs", "exception_valued_providers"]
+REQUIRED = ["invocations_judged", "providers_with_defaulted_dependencies", "graphs_with_shared_subdeps", "overrides_applied", "provider_failures", "declaration_rejections", "msg_leaves", "concurrent_twins", "fresh_executions", "same_function_depends_runs", "shadowing_payload_jobs", "exception_valued_providers"]
 CASE_TIMEOUT = 120
 
 
@@ -49,7 +49,8 @@ def gen_graph(rnd):
         cands = list(range(i))
         rnd.shuffle(cands)
         subs = sorted(cands[: rnd.choice([0, 0, 1, 1, 2, 3])]) if cands else []
-        nodes.append({"name": f"d{i}", "subs": subs, "async": rnd.random() < 0.5, "msg": rnd.random() < 0.25, "plain": rnd.choice([None, None, 7])})
+        nodes.append({"name": f"d{i}", "subs": subs, "async": rnd.random() < 0.5, "msg": rnd.random() < 0.25, "plain": rnd.choice([None, None, 7]),
+                      "dep_defaults": rnd.random() < 0.3})
     return nodes
 
 
@@ -85,7 +86,9 @@ async def graphs_scenario(loop, case, out, stats, fps, samples):
             deps = []
             called = []
             for i, nd in enumerate(nodes):
-                prov = make_provider(nd["name"], [(f"s{j}", deps[j]) for j in nd["subs"]], is_async=nd["async"], extra_default=nd["plain"], record=called, msg_leaf=nd["msg"],
+                if nd["dep_defaults"] and (nd["subs"] or nd["msg"]):
+                    stats["providers_with_defaulted_dependencies"] += 1
+                prov = make_provider(nd["name"], [(f"s{j}", deps[j]) for j in nd["subs"]], is_async=nd["async"], extra_default=nd["plain"], record=called, msg_leaf=nd["msg"], dep_defaults=nd["dep_defaults"],
                                      suspend=rnd.choice([0.0, 0.0, 0.01, 0.05]))
                 deps.append(Depends(prov))
             roots = sorted(rnd.sample(range(len(nodes)), rnd.randint(1, min(3, len(nodes)))))
@@ -138,8 +141,8 @@ async def graphs_scenario(loop, case, out, stats, fps, samples):
                 i = rnd.randrange(len(p["nodes"]))
                 cands = list(range(i))
                 rnd.shuffle(cands)
-                newnode = {"name": f"o{i}", "subs": sorted(cands[: rnd.choice([0, 1, 2])]), "async": rnd.random() < 0.5, "msg": rnd.random() < 0.3, "plain": None}
-                prov = make_provider(newnode["name"], [(f"s{j}", p["deps"][j]) for j in newnode["subs"]], is_async=newnode["async"], record=p["called"], msg_leaf=newnode["msg"])
+                newnode = {"name": f"o{i}", "subs": sorted(cands[: rnd.choice([0, 1, 2])]), "async": rnd.random() < 0.5, "msg": rnd.random() < 0.3, "plain": None, "dep_defaults": rnd.random() < 0.4}
+                prov = make_provider(newnode["name"], [(f"s{j}", p["deps"][j]) for j in newnode["subs"]], is_async=newnode["async"], record=p["called"], msg_leaf=newnode["msg"], dep_defaults=newnode.get("dep_defaults", False))
                 p["deps"][i].override(prov)
                 overrides[pi][i] = newnode
                 stats["overrides_applied"] += 1
